@@ -404,14 +404,14 @@ structure Bookmark where
   deriving Repr, DecidableEq
 
 /-- `HashMap<u32, Bookmark>`; only looked up and updated in place -/
-abbrev BmTable := List (Nat × Bookmark)
+abbrev BkTable := List (Nat × Bookmark)
 
-def BmTable.get (t : BmTable) (id : Nat) : Option Bookmark :=
+def BkTable.get (t : BkTable) (id : Nat) : Option Bookmark :=
   match t with
   | [] => none
-  | (i, b) :: rest => if i = id then some b else BmTable.get rest id
+  | (i, b) :: rest => if i = id then some b else BkTable.get rest id
 
-def BmTable.setPage (t : BmTable) (id : Nat) (page : ObjId) : BmTable :=
+def BkTable.setPage (t : BkTable) (id : Nat) (page : ObjId) : BkTable :=
   t.map (fun (i, b) => if i = id then (i, { b with page := page }) else (i, b))
 
 structure Doc where
@@ -419,7 +419,7 @@ structure Doc where
   objects : Objects
   maxId : Nat
   bookmarks : List Nat
-  bmTable : BmTable
+  bmTable : BkTable
   deriving Repr
 
 end Lopdf
